@@ -455,3 +455,67 @@ def _runner_fn(name):
 COMBOS = (("combo-a", _compose(log_inserted, compare_flipped, else_after_return, return_via_temp, _runner_fn("_rename_locals"))),
           ("combo-b", _compose(_runner_fn("_invert_ifs"), augassign_expanded, and_nested, early_continue, method_wrapped, docstrings_stripped)),
           ("combo-c", _compose(with_to_acquire, de_morgan, compare_flipped, stat_counter, messages_reworded, chained_assign_split, _runner_fn("_rename_locals"))))
+
+
+# ---- extract method -----------------------------------------------------------------------------------------------------
+def blocks_extracted(src):
+    """in every method, the first `if` statement (without else) whose body has no return / break / continue / yield and
+    binds no name that is used outside it is moved into a new method `_x_<method>` of the same class, called with the
+    locals and parameters it reads: the classic "extract method" refactoring."""
+    import copy
+    tree = ast.parse(src)
+    for cls in [n for n in ast.walk(tree) if isinstance(n, ast.ClassDef)]:
+        new_methods = []
+        for fn in [m for m in cls.body if isinstance(m, ast.FunctionDef)]:
+            if not fn.args.args or fn.args.args[0].arg != "self" or fn.decorator_list:
+                continue
+            if any(isinstance(x, (ast.Yield, ast.YieldFrom, ast.FunctionDef, ast.ClassDef, ast.Lambda, ast.Global, ast.Nonlocal)) for x in ast.walk(fn) if x is not fn):
+                continue
+            params = set(a.arg for a in fn.args.args + fn.args.kwonlyargs)
+            if fn.args.vararg:
+                params.add(fn.args.vararg.arg)
+            if fn.args.kwarg:
+                params.add(fn.args.kwarg.arg)
+            bound_all = set(n.id for n in ast.walk(fn) if isinstance(n, ast.Name) and isinstance(n.ctx, (ast.Store, ast.Del))) | \
+                set(h.name for h in ast.walk(fn) if isinstance(h, ast.ExceptHandler) and h.name)
+            localset = bound_all | params
+            done = False
+            for owner in ast.walk(fn):
+                if done:
+                    break
+                for field in ("body", "orelse", "finalbody"):
+                    v = getattr(owner, field, None)
+                    if not (isinstance(v, list) and v and isinstance(v[0], ast.stmt)):
+                        continue
+                    for i, st in enumerate(v):
+                        if not (isinstance(st, ast.If) and not st.orelse):
+                            continue
+                        if any(isinstance(x, (ast.Return, ast.Break, ast.Continue, ast.Try, ast.With)) for x in ast.walk(st)):
+                            continue
+                        inside = set(id(x) for x in ast.walk(st))
+                        stored = set(x.id for x in ast.walk(st) if isinstance(x, ast.Name) and isinstance(x.ctx, (ast.Store, ast.Del)))
+                        used_outside = set(x.id for x in ast.walk(fn) if isinstance(x, ast.Name) and id(x) not in inside)
+                        if stored & used_outside or stored & params:
+                            continue
+                        loads = []
+                        for x in ast.walk(st):
+                            if isinstance(x, ast.Name) and isinstance(x.ctx, ast.Load) and x.id in localset and x.id != "self" and x.id not in stored and x.id not in loads:
+                                loads.append(x.id)
+                        name = "_x_%s" % fn.name
+                        helper = ast.FunctionDef(name=name, args=ast.arguments(posonlyargs=[], args=[ast.arg(arg="self")] + [ast.arg(arg=a) for a in loads],
+                                                                                kwonlyargs=[], kw_defaults=[], defaults=[]),
+                                                 body=[copy.deepcopy(st)], decorator_list=[], returns=None)
+                        call = ast.Expr(value=ast.Call(func=ast.Attribute(value=ast.Name(id="self", ctx=ast.Load()), attr=name, ctx=ast.Load()),
+                                                       args=[ast.Name(id=a, ctx=ast.Load()) for a in loads], keywords=[]))
+                        v[i] = ast.copy_location(call, st)
+                        new_methods.append(helper)
+                        done = True
+                        break
+                    if done:
+                        break
+        cls.body.extend(new_methods)
+    ast.fix_missing_locations(tree)
+    return ast.unparse(tree) + "\n"
+
+
+EXTRA5 = (("blocks-extracted", blocks_extracted),)
